@@ -48,6 +48,32 @@ LEAN_MODULES = ["LenaModel.Props.C19"]
 LEAN_SOURCES = ["LenaModel/Model/C19.lean", "LenaModel/Props/C19.lean"]
 DRIVER = "drivers/C19.lean"
 THEOREMS = [
+    "Lena.C19.run_fresh_partial",
+    "Lena.C19.history_fresh_partial",
+    "Lena.C19.history_fresh_full_fails",
+    "Lena.C19.run_fresh_full_fails",
+    "Lena.C19.sepCore_fresh",
+    "Lena.C19.downCore_spec",
+    "Lena.C19.runPlot_eq_sepCore",
+    "Lena.C19.idle_run_is_noop",
+    "Lena.C19.settled_run_is_noop",
+    "Lena.C19.changed_sticky",
+    "Lena.C19.changed_sticky_plot",
+    "Lena.C19.writeCore_sticky",
+    "Lena.C19.writeCore_changed_content",
+    "Lena.C19.writeCore_created_leaves_changed",
+    "Lena.C19.makefilename_keeps_existing",
+    "Lena.C19.makefilename_prefix_suffix_once",
+    "Lena.C19.makefilename_second_has_no_prefix",
+    "Lena.C19.makefilename_prefix_accumulates",
+    "Lena.C19.makefilename_init_rules",
+    "Lena.C19.write_path_rule",
+    "Lena.C19.write_file_at_path",
+    "Lena.C19.write_empty_filename",
+    "Lena.C19.groupPlotsChanged_iff",
+    "Lena.C19.combineChanged_spec",
+    "Lena.C19.group_changed_sticky",
+    "Lena.C19.group_changed_after_mapgroup",
 ]
 CASE_TIMEOUT = 20
 
@@ -655,6 +681,24 @@ def _ref_make_filename(args, name, out):
     return {k: o.get(k) for k in OUT_KEYS}
 
 
+def _ref_base(cfg, name):
+    """output_directory/dirname/filename of a plot called `name` (reference naming rules, defaults of Write)"""
+    o = _ref_make_filename(cfg["mf"], name, {"filetype": "csv"})
+    return _join(cfg["outdir"], o["dirname"] or "", o["filename"] or "output")
+
+
+def _ref_group_base(cfg, names):
+    """the same for the combined plot of a group: keys common to all members belong to the group as well
+    (MapGroup: "common changes of group context update common context"), the rest comes from MakeFilename"""
+    outs = [dict(_ref_make_filename(cfg["mf"], n, {"filetype": "csv"})) for n in names]
+    for o, n in zip(outs, names):
+        o["filename"] = o["filename"] or "output"
+    inter = {k: (outs[0][k] if all(o[k] == outs[0][k] for o in outs) else None) for k in ("filename", "dirname")}
+    name = names[0] if all(n == names[0] for n in names) else None
+    g = _ref_make_filename(cfg["gmf"], name, inter)
+    return _join(cfg["outdir"], g["dirname"] or "", g["filename"] or "output")
+
+
 def _oracle_stage(case, res):
     op = case["op"]
     if op == "mf":
@@ -830,8 +874,7 @@ def hist_failures(case, res):
                     data_of[p] = pl["data"]
         else:
             for pl in rs["plots"]:
-                dn = ""
-                data_of[_join(rs["outdir"], dn, (pl["name"] or "output") + ".csv")] = pl["data"]
+                data_of[_ref_base(rs, pl["name"]) + ".csv"] = pl["data"]
         new_tainted = set()
         ow_any = rs["w1"] == "ow" or rs["w2"] == "ow" or rs["lo"] or rs["po"]
         for u in units:
@@ -887,7 +930,10 @@ def hist_failures(case, res):
                 new_tainted.add(u["base"])
                 what = (f"{tag}: {u['pdf']} (and {u['png']}) is stale: rendered from {jdump(files[u['pdf']]['pdf'] if 'pdf' in files[u['pdf']] else files[u['pdf']])[:300]}, "
                         f"current sources give {jdump(e_pdf['pdf'])[:300]}")
-                if src_missing and u["pdf"] in pre:
+                if src_missing and u["pdf"] in pre and not (v["group"] is None and len(src_missing) == len(srcs)):
+                    # the known finding: a re-created source file does not set output.changed.  (With *all* sources
+                    # of a separate plot missing `changed` stays unset and LaTeXToPDF compares modification times,
+                    # which regenerates the pdf: staleness there is not covered by the finding.)
                     fails.append(("known", what + f"; the run started without {src_missing} while {u['pdf']} existed"))
                 elif (u["base"] in tainted and not src_written and not src_missing and u["pdf"] in pre
                       and files[u["pdf"]] == pre[u["pdf"]] and not rs["lo"]):
@@ -938,10 +984,19 @@ def _report_known(case):
 
 
 def signature(case, failure):
+    """the known class has one signature; other failures are grouped by the kind of case and of failure (paths,
+    numbers and content tokens removed), so that one defect is reported a few times, not fifty"""
     if failure.startswith(KNOWN_TAG):
         return KNOWN_SIG
-    c = {k: v for k, v in case.items() if k != "kw"}
-    return jdump(c)
+    kind = case["op"]
+    if kind == "hist":
+        r = [st["run"] for st in case["steps"] if "run" in st][0]
+        kind = f"hist:{r['layout']}"
+    text = failure.split(";")[0]
+    text = re.sub(r"[\[{(].*?[\]})]", "", text)
+    text = re.sub(r"\S*/\S+", "", text)
+    text = re.sub(r"\d+", "N", text)
+    return kind + ":" + " ".join(text.split())[:100]
 
 
 def nontrivial(case, res):
@@ -958,8 +1013,11 @@ def classify(case, res):
     runs = [st["run"] for st in case["steps"] if "run" in st]
     labels.append(f"hist:{runs[0]['layout']}:plots={len(runs[0]['plots'])}:runs={len(runs)}")
     labels.append("stub:" + case.get("stub", "fake"))
-    for r in runs:
-        labels.append(f"modes:{r['w1']}/{r['w2']}/lo={int(r['lo'])}/po={int(r['po'])}")
+    for r in runs[1:]:
+        labels.append(f"write modes (csv/tex):{r['w1']}/{r['w2']}")
+        labels.append(f"converter overwrite (latex/png):{int(r['lo'])}/{int(r['po'])}")
+        if r["mf"] != STD_MF or r["gmf"] != STD_GMF:
+            labels.append("non-standard file names")
     fails = hist_failures(case, res)
     if any(c == "known" for c, _ in fails):
         labels.append("known-class-stale" + ("" if _report_known(case) else "(counted, not reported)"))
@@ -984,12 +1042,15 @@ def _run_step(cfg, layout, tpl, datas, dels=(), names=None):
     return st
 
 
-def _unit_files(layout, n):
-    """the files of a history with n plots p0.. (standard names)"""
+def _unit_files(layout, n, cfg=None):
+    """the files of a history with n plots p0, p1, ...: per plot csv, tex, pdf, png (separate layout), or the csv
+    files followed by the combined tex, pdf, png (group layout)"""
+    cfg = cfg or _cfg()
+    names = ["p%d" % i for i in range(n)]
     if layout == "group":
-        base = "combined" if n > 1 else "p0"
-        return [f"{OUT}/p{i}.csv" for i in range(n)] + [f"{OUT}/{base}.{k}" for k in ("tex", "pdf", "png")]
-    return [f"{OUT}/p{i}.{k}" for i in range(n) for k in KINDS]
+        base = _ref_group_base(cfg, names)
+        return [_ref_base(cfg, x) + ".csv" for x in names] + [f"{base}.{k}" for k in ("tex", "pdf", "png")]
+    return [f"{_ref_base(cfg, x)}.{k}" for x in names for k in KINDS]
 
 
 def _subsets(xs):
@@ -1021,7 +1082,7 @@ def _source_closed(case):
         if "run" in st:
             r = st["run"]
             n = len(r["plots"])
-            fs = _unit_files(r["layout"], n)
+            fs = _unit_files(r["layout"], n, r)
             if r["layout"] == "group":
                 srcs, pdf = fs[:n + 1], fs[n + 1]
                 if pdf in present and any(s not in present for s in srcs):
@@ -1050,8 +1111,10 @@ def _stage_cases():
                         for ow in (False, True):
                             args = {"filename": fn, "dirname": dn, "fileext": fe, "prefix": pre, "suffix": suf,
                                     "overwrite": ow}
+                            invalid = (fn is not None and (pre is not None or suf is not None)) or \
+                                all(x is None for x in (fn, pre, suf, dn, fe))
                             for name in (None, "n"):
-                                for o in outs:
+                                for o in (outs[:1] if invalid else outs):
                                     cases.append({"op": "mf", "args": args, "name": name, "out": o})
     # Write._make_filename
     for outdir in ("out", "", "out/", "a/b"):
@@ -1182,6 +1245,23 @@ def gen_cases(ctx):
             for tpl in (1, 2):
                 for dels in [[]] + [[f] for f in files]:
                     add({"op": "hist", "steps": [f0, _run_step(_cfg(), layout, tpl, list(datas), dels)]})
+    # other file names: sub-directories, literal parts, a default file name, a named group in a directory
+    variants = [
+        ("separate", 2, _cfg(mf=dict(STD_MF, dirname=["sub"]))),
+        ("separate", 2, _cfg(mf=dict(STD_MF, filename=["plot_", None], dirname=["d_", None]))),
+        ("separate", 1, _cfg(mf=dict(STD_MF, filename=None, dirname=["only_dir"]))),
+        ("separate", 1, _cfg(mf=dict(STD_MF, filename=None, prefix=["pre_"]))),
+        ("group", 2, _cfg(mf=dict(STD_MF, dirname=["sub"]), gmf=dict(STD_GMF, filename=["all"], dirname=["g"]))),
+        ("group", 2, _cfg(gmf=dict(STD_GMF, filename=["all_", None], dirname=["g"]))),
+        ("group", 1, _cfg(gmf=dict(STD_GMF, dirname=["g"]))),
+    ]
+    for layout, n, cfg in variants:
+        f0 = _run_step(cfg, layout, 1, [1] * n)
+        files = _unit_files(layout, n, cfg)
+        for datas in itertools.product((1, 2), repeat=n):
+            for tpl in (1, 2):
+                for dels in [[], files[:1], files[-3:-2], files[-2:-1], files[-1:], files[:1] + files[-2:-1]]:
+                    add({"op": "hist", "steps": [f0, _run_step(cfg, layout, tpl, list(datas), dels)]})
     # histories of two steps after the first run
     alpha1 = list(_alphabet("separate", 1, std))
     if thorough:
